@@ -310,7 +310,7 @@ def run_shard(spec, R):
 
 MANIFEST = {
     "technique": "boundary monitors on _solve / linear_solve with nth-call failpoints; sys.monitoring EXCEPTION_HANDLED to observe swallowed exceptions; loop-divergence and independent cost-functional oracles; fault enumeration over iteration indices",
-    "level_text": "Each clean run over a covering sample (quick) or the full lattice (thorough, on 4 small grids, plus a larger sample) of grid x mass kind x method x L1 x mobility x formulation x back-end x Anderson x weight x tolerances is captured at the _solve boundary and judged: mass balance by an independent loop divergence, distance equal to the cost of exactly the returned flux (library functional bitwise and an independent quadrature), auxiliary outputs, and 'converged implies recomputed stopping criteria met and nothing swallowed' (swallowed exceptions are observed with sys.monitoring). Then, for every iteration index k up to K, the same run is repeated with an injected failure of that iteration's linear solve; it must report non-converged and return the clean run's k-th iterate, mass-conserving and self-consistent.",
-    "level_note": "Faults are injected at the linear-solve boundary only (the failure class the property names); K = 3 (quick) / 6 (thorough) iterations per run; inputs are integer-valued so that masses are exactly equal.",
+    "level_text": "Each clean run over a covering sample (quick) or the full lattice (thorough, on 4 small grids, plus a larger sample) of grid x mass kind x method x L1 x mobility x formulation x back-end x Anderson x weight x tolerances is captured at the _solve boundary and judged: mass balance by an independent loop divergence, distance equal to the cost of exactly the returned flux (library functional bitwise and an independent quadrature), auxiliary outputs, and 'converged implies recomputed stopping criteria met and nothing swallowed' (swallowed exceptions are observed with sys.monitoring). Then, for every iteration index k up to K and each of four fault sites, the same run is repeated with an injected failure of that iteration; it must report non-converged and return the clean run's k-th iterate, mass-conserving and self-consistent.",
+    "level_note": "Four fault sites per iteration index: the linear-solve boundary, inside the back-end's solve(), the first inner step after the iterate was advanced (cost evaluation), and a back-end that silently returns NaN; K = 3 (quick) / 6 (thorough) iterations per run; inputs are integer-valued so that masses are exactly equal; iterative back-ends on > 99 cells are compared at 1e-7 (pyamg's set-up is randomised).",
     "design_ref": "DESIGN.md section 3, C04",
 }
